@@ -9,7 +9,7 @@ RULE = ("float primitives (+,-,*,/,sqrt) on random and boundary binary32 values 
         "grid incl. distance = speed^2/acceleration, zero, negative, infinite and NaN arguments; scale update at k*32767 and "
         "k*32767+1 for k = 1..128 and random points; seconds -> milliseconds around 4294967 s, negative, NaN, infinite; "
         "interval expansion by negative amounts; colour interpolation on all channel pairs of a grid x 64 ratios; RGBW "
-        "conversions on a colour grid; buffer operation sequences over small sizes for owned and view buffers. "
+        "conversions on a colour grid; buffer operation sequences over small sizes and over sizes around 2^8 and 2^16 for owned and view buffers. "
         "Non-trivial = every case whose model result is not an argument error.")
 EXPLANATION = "exact comparison: model value (rational) = value of the implementation's binary32 bit pattern; discrete results identical"
 ASSUMPTIONS = ["x86-64 SSE binary32 arithmetic without contraction (-ffp-contract=off), correctly rounded sqrtf",
@@ -144,6 +144,29 @@ def cases(rng, tier):
         else:
             init = hexs([rng.randrange(256) for _ in range(rng.choice([0, 1, 3, 9]))])
         yield ("util buf %s %s %s" % (kind, init, rand_ops(rng.randint(1, 6))), "buf-" + kind)
+
+
+    # sizes and capacities around 2^8 and 2^16 (growth by doubling across them, shrinking back, views of that size)
+    for _ in range(40 if thorough else 8):
+        kind = rng.choice(["init", "view", "bytes"])
+        big = rng.choice([255, 256, 257, 65535, 65536, 65537, 70000])
+        init = str(rng.choice([0, 1, big])) if kind == "init" else hexs([rng.randrange(256) for _ in range(rng.choice([3, big]))])
+        ops = []
+        for _ in range(rng.randint(2, 6)):
+            o = rng.choice("azzrrcpbk")
+            if o == "a":
+                ops.append("a" + hexs([rng.randrange(256) for _ in range(rng.choice([1, 300, 65536 if rng.random() < 0.2 else 2]))]))
+            elif o == "z":
+                ops.append("z%d" % rng.choice([1, 255, 256, big, 65535, 65536]))
+            elif o == "r":
+                ops.append("r%d" % rng.choice([0, 1, 255, 256, 257, 65535, 65536, 65537, big]))
+            elif o == "b":
+                ops.append("b%d" % rng.randrange(256))
+            elif o == "k":
+                ops.append("k" + hexs([rng.randrange(256) for _ in range(rng.choice([1, 257]))]))
+            else:
+                ops.append(o)
+        yield ("util buf %s %s %s" % (kind, init, ",".join(ops)), "buf-large-" + kind)
 
 
 def compare(case, om, oi):
